@@ -44,6 +44,11 @@ func (m *PositionMapper) LSPToByte(pos protocol.Position) int {
 	}
 	byteOffset := m.lineStarts[line]
 	byteOffset += UTF16OffsetToByteOffset(m.lines[line], int(pos.Character))
+	// a position past the end of a line clamps to the end of its text, which for
+	// a CRLF line is before the "\r" (it belongs to the line terminator)
+	if lineEnd := m.lineStarts[line] + len(strings.TrimSuffix(m.lines[line], "\r")); byteOffset > lineEnd {
+		byteOffset = lineEnd
+	}
 	return byteOffset
 }
 
